@@ -37,7 +37,9 @@ func init() {
 			{ID: "R02.2", Title: "regroup guard: rebuilt Operate nodes only under IsCommutative and same operator", Floor: 2, Run: ruleR022},
 			{ID: "R02.3", Title: "purity propagation: every returned purity conjoins all child purities and statically bound callee flags", Floor: 15, Run: ruleR023},
 			{ID: "R02.4", Title: "declared flags vs implementation: commutative operators have no asymmetry witness and are not compiled lazily; pure functions reach no source of non-determinism", Floor: 19, Run: func(c *Ctx) {
-				ruleR024(func(p *packages.Package) bool { return !strings.HasSuffix(p.PkgPath, "/example") || strings.HasSuffix(p.PkgPath, "value/example") })(c)
+				ruleR024(func(p *packages.Package) bool {
+					return !strings.HasSuffix(p.PkgPath, "/example") || strings.HasSuffix(p.PkgPath, "value/example")
+				})(c)
 				ruleR024a(c)
 			}},
 			{ID: "R02.6", Title: "sibling agreement: optimizer and generated code consult the same handlers to find the callee of a call", Floor: 2, Run: ruleR026},
